@@ -529,6 +529,7 @@ func runC11(c *Ctx) {
 		}, callTo("pkg/core.fileIndex.Upload"))
 		c.check(nB == 1 && len(bad) == 0, "hand-off.splits-collected-first", ic.ID, p.Pos(ic.Decl.Pos()), "the splits are collected before the merge output is uploaded", "implCommit uploads the merged index before collecting the splits")
 	}
+	checkIteratorNilOnlyAtExhaustion(c, "hand-off.iterator-nil-at-exhaustion")
 }
 
 func existVarName(v *types.Var) string { return v.Name() }
@@ -898,7 +899,15 @@ func runC12(c *Ctx) {
 			for _, a := range cs.Call.Args {
 				ds = append(ds, describeExpr(f, a, 0))
 			}
-			c.check(strings.Join(ds, ";") == it.want, "generation-paths.iterators", callKey(f, cs.Call), p.Pos(cs.Call.Pos()), "file-list path built from the split's own ID and recorded generation", it.fn+" builds file-list paths from ("+strings.Join(ds, ";")+"): a split's lists must be addressed by that split's ID and the generation recorded in its descriptor")
+			okPath := strings.Join(ds, ";") == it.want
+			if !okPath && it.fn == "pkg/core.downloadAllSplitsIterator.Next" && len(ds) == 5 {
+				// any single element expression of the iterator's own list is fine (e.g. pinned in a local before the
+				// cursor moves): what matters is that ID and generation come from the same element
+				e1, e2 := strings.TrimSuffix(ds[2], ".SplitID"), strings.TrimSuffix(ds[3], ".GenerationID")
+				okPath = ds[0] == "recv.repoID" && ds[1] == "recv.diamondID" && ds[4] == "litparam" && e1 == e2 && e1 != ds[2] && e2 != ds[3] &&
+					strings.HasPrefix(e1, "recv.splits[") && strings.Contains(e1, "recv.i")
+			}
+			c.check(okPath, "generation-paths.iterators", callKey(f, cs.Call), p.Pos(cs.Call.Pos()), "file-list path built from the split's own ID and recorded generation", it.fn+" builds file-list paths from ("+strings.Join(ds, ";")+"): a split's lists must be addressed by that split's ID and the generation recorded in its descriptor")
 		}
 		if n == 0 {
 			c.fail("generation-paths.iterators", it.fn, p.Pos(f.Decl.Pos()), "no GetArchivePathToSplitFileList call")
@@ -959,4 +968,7 @@ func runC12(c *Ctx) {
 	// completed splits only: the done/running merge of split descriptor keys must survive listing page boundaries
 	// (shared with C07), otherwise a completed split is seen as running and left out of the commit
 	checkMergeKeysState(c)
+	checkIteratorNilOnlyAtExhaustion(c, "done-splits-only.iterator-nil-at-exhaustion")
+	checkListApplySiblings(c, "done-splits-only.listing-errors")
+	checkSilentSkipOnlyNotExists(c, c.P.BodyOf(c.P.Func("pkg/core.getSplitAsync")), "done-splits-only.split-skip-only-not-exists")
 }
